@@ -1,6 +1,9 @@
 (* C19 — Privileged changes need governance; messages touch only the signer's assets. *)
 From Coq Require Import ZArith List String.
-From Verif Require Import Base.Harness Model.Authority Model.Ledger Proofs.AuthorityProofs.
+From Verif Require Import Base.Dec Base.Harness Model.Authority Model.Ledger Proofs.AuthorityProofs.
+(* the handler models have clashing names: required, not imported, and used with qualified names *)
+From Verif Require Model.Reporter Model.Slash Model.DisputeSettle Model.OracleRound Model.Escrow.
+From Verif Require Proofs.SlashProofs Proofs.DisputeSettleProofs Proofs.FrameProofs.
 Import ListNotations.
 Open Scope Z_scope.
 
@@ -21,7 +24,8 @@ Print Assumptions C19_no_reregistration.
 
 (* PARTIAL (see level note): the frame condition "only the signer's assets go down, with the three
    exceptions" is stated here as the meaning of the executable check that is evaluated on the
-   real message handlers; it is not derived from a model of all handlers *)
+   real message handlers; it is not derived from a model of all 25 handlers.  For the handlers that have an
+   executable model (C10, C11, C13, C07, C04) it IS derived from the model: second half of this file *)
 Theorem C19_frame_check_sound_partial before op signer params after decs :
   c19_step before (Step op signer 0 params after decs) = [] -> 0 <= signer ->
   ~ In op privileged_ops ->
@@ -50,3 +54,344 @@ Theorem C19_dispute_exception_needs_funding op params role comp :
   str_in role ["disputed_reporter"; "backer_of_disputed"]%string = true -> funded_after params = true.
 Proof. exact (dispute_exception_needs_funding op params role comp). Qed.
 Print Assumptions C19_dispute_exception_needs_funding.
+
+(* ================================================================================================= *)
+(* The frame condition derived from the handler models (Proofs/FrameProofs.v), for ALL states of each model.
+   A model is tied to the Go code by the correspondence check of its own property: Model/Reporter.v by C10,
+   Model/Slash.v by C11, Model/DisputeSettle.v by C13, Model/OracleRound.v by C07, Model/Escrow.v by C04.        *)
+(* ================================================================================================= *)
+
+(* ---- (a) reporter module: CreateReporter, SelectReporter, SwitchReporter, UnjailReporter, SubmitValue ------ *)
+(* [rep_signer]: OCreate a, OSelect a r, OSwitch a r -> a;  OUnjail r, OReport r q -> r.
+   The selection and the reporter record of every account other than the signer stay as they are; the staking view
+   (everybody's delegations) and the parameters are not touched.  Not excluded, and not a reduction of anybody's
+   holdings: the stake COUNTED for reporter r (derived from the selections) changes when a selects or leaves r. *)
+Theorem C19_reporter_signer_only fx st o a :
+  FrameProofs.rep_signer o = Some a ->
+  let st' := fst (Reporter.step fx st o) in
+  (forall b, b <> a -> Reporter.sel_get (Reporter.st_sel st') b = Reporter.sel_get (Reporter.st_sel st) b) /\
+  (forall b, b <> a -> Reporter.rep_get (Reporter.st_rep st') b = Reporter.rep_get (Reporter.st_rep st) b) /\
+  Reporter.st_view st' = Reporter.st_view st /\ Reporter.st_par st' = Reporter.st_par st.
+Proof. exact (FrameProofs.reporter_signed_frame fx st o a). Qed.
+Print Assumptions C19_reporter_signer_only.
+
+(* [rep_subject] adds the two operations that act on somebody who did not sign: ORemove a (anybody may send
+   RemoveSelector for selector a - third exception) and OJail r (the dispute keeper jails the disputed reporter of a
+   funded dispute - first exception).  Still only that one account's records change. *)
+Theorem C19_reporter_one_account_only fx st o a :
+  FrameProofs.rep_subject o = Some a ->
+  let st' := fst (Reporter.step fx st o) in
+  (forall b, b <> a -> Reporter.sel_get (Reporter.st_sel st') b = Reporter.sel_get (Reporter.st_sel st) b) /\
+  (forall b, b <> a -> Reporter.rep_get (Reporter.st_rep st') b = Reporter.rep_get (Reporter.st_rep st) b) /\
+  Reporter.st_view st' = Reporter.st_view st /\ Reporter.st_par st' = Reporter.st_par st.
+Proof. exact (FrameProofs.reporter_frame fx st o a). Qed.
+Print Assumptions C19_reporter_one_account_only.
+
+Theorem C19_reporter_rejected_no_change fx st o a :
+  FrameProofs.rep_subject o = Some a -> Reporter.rs_code (snd (Reporter.step fx st o)) <> Reporter.OK ->
+  fst (Reporter.step fx st o) = st.
+Proof. exact (FrameProofs.reporter_rejected_no_change fx st o a). Qed.
+Print Assumptions C19_reporter_rejected_no_change.
+
+(* the third exception in the handler model: an accepted RemoveSelector found HasMin false for the selector against
+   its reporter's minimum and the reporter over the selector cap, and deleted that one selection.  When every
+   delegation of the selector points to a known validator ([validators_known], always so in the staking store) this is
+   the abstract rule of C19_remove_selector_only_if with stake = the selector's bonded tokens. *)
+Theorem C19_reporter_remove_is_third_exception fx st a :
+  Reporter.rs_code (snd (Reporter.step fx st (Reporter.ORemove a))) = Reporter.OK ->
+  exists s rp,
+    Reporter.sel_get (Reporter.st_sel st) a = Some s /\
+    Reporter.rep_get (Reporter.st_rep st) (Reporter.s_reporter s) = Some rp /\
+    Reporter.has_min (Reporter.st_view st) a (Reporter.r_min rp) = false /\
+    Reporter.p_max_sel (Reporter.st_par st) < Reporter.sel_count (Reporter.st_sel st) (Reporter.s_reporter s) /\
+    fst (Reporter.step fx st (Reporter.ORemove a)) = Reporter.set_sel st (Reporter.sel_remove (Reporter.st_sel st) a) /\
+    (FrameProofs.validators_known (Reporter.st_view st) a ->
+       Reporter.bonded_tokens (Reporter.st_view st) a < Reporter.r_min rp /\
+       remove_selector (FrameProofs.sel_pairs (Reporter.st_sel st)) a (Reporter.bonded_tokens (Reporter.st_view st) a)
+                       (Reporter.r_min rp) (Reporter.sel_count (Reporter.st_sel st) (Reporter.s_reporter s))
+                       (Reporter.p_max_sel (Reporter.st_par st))
+       = Some (FrameProofs.sel_pairs (Reporter.st_sel (fst (Reporter.step fx st (Reporter.ORemove a)))))).
+Proof. exact (FrameProofs.reporter_remove_only_if fx st a). Qed.
+Print Assumptions C19_reporter_remove_is_third_exception.
+
+(* what is not a message (new staking view, parameters, next block): reporter records stay, every selection keeps
+   its owner, its reporter and its lock *)
+Theorem C19_reporter_environment_keeps_selections fx st o :
+  FrameProofs.rep_subject o = None ->
+  let st' := fst (Reporter.step fx st o) in
+  Reporter.st_rep st' = Reporter.st_rep st /\
+  map (fun s => (Reporter.s_addr s, Reporter.s_reporter s, Reporter.s_locked s)) (Reporter.st_sel st') =
+  map (fun s => (Reporter.s_addr s, Reporter.s_reporter s, Reporter.s_locked s)) (Reporter.st_sel st).
+Proof. exact (FrameProofs.reporter_env_frame fx st o). Qed.
+Print Assumptions C19_reporter_environment_keeps_selections.
+
+(* ---- (b) ProposeDispute / AddFeeToDispute in the slashing model; the signer is [sender] --------------------- *)
+(* [slice_same a b]: validators, delegations, unbonding delegations and the not-bonded pool of the slice are equal.
+   [untouched b st st']: delegator b has the same delegations (shares) and unbonding entries in st and st'. *)
+(* PayDisputeFee: from the sender's liquid balance, or (from_bond, second exception) from the sender's own bonded
+   amount and the bonded pool; nobody else's balance or bonded amount, no delegation of the slice *)
+Theorem C19_dispute_fee_from_sender_only w sender amount fb w1 :
+  Slash.pay w sender amount fb = Some w1 ->
+  FrameProofs.slice_same (Slash.w_stk w1) (Slash.w_stk w) /\
+  Slash.s_escrow (Slash.w_stk w1) = Slash.s_escrow (Slash.w_stk w) + amount /\
+  Slash.s_bonded (Slash.w_stk w1) = Slash.s_bonded (Slash.w_stk w) - (if fb then amount else 0) /\
+  (forall b, b <> sender -> Slash.bond_get b (Slash.w_liq w1) = Slash.bond_get b (Slash.w_liq w) /\
+                            Slash.bond_get b (Slash.w_bond w1) = Slash.bond_get b (Slash.w_bond w)) /\
+  (if fb then Slash.w_liq w1 = Slash.w_liq w /\ amount <= Slash.bond_get sender (Slash.w_bond w)
+   else Slash.w_bond w1 = Slash.w_bond w /\ amount <= Slash.bond_get sender (Slash.w_liq w)).
+Proof. exact (FrameProofs.pay_frame w sender amount fb w1). Qed.
+Print Assumptions C19_dispute_fee_from_sender_only.
+
+(* EscrowReporterStake (every variant of the code): stake is taken from the delegators of the snapshot only *)
+Theorem C19_escrow_takes_from_backers_only vr reds st origins power amt st' rec b :
+  Slash.escrow vr reds st origins power amt = Some (st', rec) -> ~ In b (map Slash.o_del origins) ->
+  FrameProofs.untouched b st st'.
+Proof. exact (FrameProofs.escrow_frame vr reds st origins power amt st' rec b). Qed.
+Print Assumptions C19_escrow_takes_from_backers_only.
+
+Theorem C19_slash_and_jail_frame vr e w id r cat w' :
+  Slash.slash_and_jail vr e w id r cat = Some w' ->
+  Slash.w_liq w' = Slash.w_liq w /\ Slash.w_bond w' = Slash.w_bond w /\
+  In id (map Slash.rc_id (Slash.w_rcds w')) /\
+  (forall a, a <> Slash.rp_reporter r -> Slash.find_rep a (Slash.w_reps w') = Slash.find_rep a (Slash.w_reps w)) /\
+  exists s, Slash.find_snap (Slash.rp_qid r) (Slash.rp_reporter r) (Slash.rp_height r) (Slash.e_snaps e) = Some s /\
+            forall b, ~ In b (map Slash.o_del (Slash.sn_origins s)) -> FrameProofs.untouched b (Slash.w_stk w) (Slash.w_stk w').
+Proof. exact (FrameProofs.slash_and_jail_frame vr e w id r cat w'). Qed.
+Print Assumptions C19_slash_and_jail_frame.
+
+(* ProposeDispute.  Always: only the sender's liquid balance or bonded amount moves, the one named in the message.
+   Fee not complete (paid < dfee): the staking slice is what the payment alone left, no delegation, unbonding entry or
+   validator changed, nobody is jailed, no aggregate flagged, no escrow record written.
+   Fee complete (paid = dfee, first exception): the escrow record of the new dispute exists, only the jail record of
+   the disputed reporter can change, only the delegators in the stake snapshot of the report lose stake. *)
+Theorem C19_propose_dispute_frame vr e w sender r cat fee fb w' :
+  Slash.propose vr e w sender r cat fee fb = Some w' ->
+  exists dfee paid w1,
+    Slash.dispute_fee (Slash.rp_power r) cat = Some dfee /\ paid = Z.min fee dfee /\ Slash.pay w sender paid fb = Some w1 /\
+    ((forall b, b <> sender -> Slash.bond_get b (Slash.w_liq w') = Slash.bond_get b (Slash.w_liq w) /\
+                               Slash.bond_get b (Slash.w_bond w') = Slash.bond_get b (Slash.w_bond w)) /\
+     (if fb then Slash.w_liq w' = Slash.w_liq w else Slash.w_bond w' = Slash.w_bond w)) /\
+    ((paid < dfee /\
+      (Slash.w_stk w' = Slash.w_stk w1 /\ FrameProofs.slice_same (Slash.w_stk w') (Slash.w_stk w) /\
+       Slash.w_reps w' = Slash.w_reps w /\ Slash.w_aggs w' = Slash.w_aggs w /\ Slash.w_rcds w' = Slash.w_rcds w)) \/
+     (paid = dfee /\
+      (In (Slash.next_id (Slash.w_disps w)) (map Slash.rc_id (Slash.w_rcds w')) /\
+       (forall a, a <> Slash.rp_reporter r -> Slash.find_rep a (Slash.w_reps w') = Slash.find_rep a (Slash.w_reps w)) /\
+       exists s, Slash.find_snap (Slash.rp_qid r) (Slash.rp_reporter r) (Slash.rp_height r) (Slash.e_snaps e) = Some s /\
+                 forall b, ~ In b (map Slash.o_del (Slash.sn_origins s)) ->
+                           FrameProofs.untouched b (Slash.w_stk w) (Slash.w_stk w')))).
+Proof. exact (FrameProofs.propose_frame vr e w sender r cat fee fb w'). Qed.
+Print Assumptions C19_propose_dispute_frame.
+
+(* AddFeeToDispute: the same with "complete" = the dispute's fee total reaches its slash amount *)
+Theorem C19_add_fee_frame vr e w sender id amount fb w' :
+  Slash.add_fee vr e w sender id amount fb = Some w' ->
+  exists d amt w1,
+    Slash.find_disp id (Slash.w_disps w) = Some d /\ Slash.dp_fee_total d < Slash.dp_slash d /\
+    amt = Z.min amount (Slash.dp_slash d - Slash.dp_fee_total d) /\ Slash.pay w sender amt fb = Some w1 /\
+    ((forall b, b <> sender -> Slash.bond_get b (Slash.w_liq w') = Slash.bond_get b (Slash.w_liq w) /\
+                               Slash.bond_get b (Slash.w_bond w') = Slash.bond_get b (Slash.w_bond w)) /\
+     (if fb then Slash.w_liq w' = Slash.w_liq w else Slash.w_bond w' = Slash.w_bond w)) /\
+    ((Slash.dp_fee_total d + amt < Slash.dp_slash d /\
+      (Slash.w_stk w' = Slash.w_stk w1 /\ FrameProofs.slice_same (Slash.w_stk w') (Slash.w_stk w) /\
+       Slash.w_reps w' = Slash.w_reps w /\ Slash.w_aggs w' = Slash.w_aggs w /\ Slash.w_rcds w' = Slash.w_rcds w)) \/
+     (Slash.dp_fee_total d + amt = Slash.dp_slash d /\
+      (In id (map Slash.rc_id (Slash.w_rcds w')) /\
+       (forall a, a <> Slash.rp_reporter (Slash.dp_report d) ->
+                  Slash.find_rep a (Slash.w_reps w') = Slash.find_rep a (Slash.w_reps w)) /\
+       exists s, Slash.find_snap (Slash.rp_qid (Slash.dp_report d)) (Slash.rp_reporter (Slash.dp_report d))
+                                 (Slash.rp_height (Slash.dp_report d)) (Slash.e_snaps e) = Some s /\
+                 forall b, ~ In b (map Slash.o_del (Slash.sn_origins s)) ->
+                           FrameProofs.untouched b (Slash.w_stk w) (Slash.w_stk w')))).
+Proof. exact (FrameProofs.add_fee_frame vr e w sender id amount fb w'). Qed.
+Print Assumptions C19_add_fee_frame.
+
+(* when the slice is the same, so is the token value of everybody's delegations and unbonding entries *)
+Theorem C19_same_slice_same_holdings a b d : FrameProofs.slice_same a b -> Slash.holdings a d = Slash.holdings b d.
+Proof. exact (FrameProofs.slice_same_holdings a b d). Qed.
+Print Assumptions C19_same_slice_same_holdings.
+
+(* ---- (c) dispute settlement with per-account holdings (accounts are vector positions) ------------------------ *)
+(* WithdrawFeeRefund for payer [who] of dispute [id], sent by anybody.  [tracker_nonneg]: the amounts recorded in the
+   fee tracker of the reporter module are not negative.  No liquid balance and no staked holding goes down; the only
+   balance that moves is [who]'s; staked holdings move only for [who] and for the accounts whose stake paid fees (the
+   origins of the fee tracker); voters' records and the slash tracker stay; exactly the payer record (id, who) goes. *)
+Theorem C19_withdraw_refund_frame s who id s' :
+  DisputeSettle.withdraw s who id = (s', DisputeSettle.OK) -> FrameProofs.tracker_nonneg (DisputeSettle.s_feetr s) ->
+  ((forall b, DisputeSettle.getz (DisputeSettle.s_liq s) b <= DisputeSettle.getz (DisputeSettle.s_liq s') b) /\
+   (forall b, DisputeSettle.getz (DisputeSettle.s_stk s) b <= DisputeSettle.getz (DisputeSettle.s_stk s') b) /\
+   (forall b, Z.to_nat b <> Z.to_nat who ->
+              DisputeSettle.getz (DisputeSettle.s_liq s') b = DisputeSettle.getz (DisputeSettle.s_liq s) b) /\
+   (forall b, Z.to_nat b <> Z.to_nat who ->
+              ~ FrameProofs.acct_in b (FrameProofs.tracker_origins (DisputeSettle.s_feetr s)) ->
+              DisputeSettle.getz (DisputeSettle.s_stk s') b = DisputeSettle.getz (DisputeSettle.s_stk s) b) /\
+   DisputeSettle.s_rounds s' = DisputeSettle.s_rounds s /\ DisputeSettle.s_slashtr s' = DisputeSettle.s_slashtr s) /\
+  DisputeSettle.s_payers s' = DisputeSettle.remove_payer (DisputeSettle.s_payers s) id who /\
+  (forall id' b, (id', b) <> (id, who) ->
+     DisputeSettle.find_payer (DisputeSettle.s_payers s') id' b = DisputeSettle.find_payer (DisputeSettle.s_payers s) id' b).
+Proof. exact (FrameProofs.withdraw_frame s who id s'). Qed.
+Print Assumptions C19_withdraw_refund_frame.
+
+Theorem C19_withdraw_refused_no_change s who id :
+  snd (DisputeSettle.withdraw s who id) <> DisputeSettle.OK -> fst (DisputeSettle.withdraw s who id) = s.
+Proof. exact (FrameProofs.withdraw_refused_no_change s who id). Qed.
+Print Assumptions C19_withdraw_refused_no_change.
+
+(* the hypothesis on the tracker is needed: a negative recorded amount would be taken from that account *)
+Theorem C19_withdraw_frame_needs_tracker_nonneg :
+  exists s s', DisputeSettle.withdraw s 1 1 = (s', DisputeSettle.OK) /\
+               DisputeSettle.getz (DisputeSettle.s_stk s') 2 < DisputeSettle.getz (DisputeSettle.s_stk s) 2.
+Proof. exact FrameProofs.withdraw_frame_needs_tracker_nonneg. Qed.
+Print Assumptions C19_withdraw_frame_needs_tracker_nonneg.
+
+(* ClaimReward, signed by the voter [who]: a positive reward goes from the escrow to [who]'s balance; nothing else *)
+Theorem C19_claim_reward_frame fx s who id s' :
+  DisputeSettle.claim fx s who id = (s', DisputeSettle.OK) ->
+  DisputeSettle.s_stk s' = DisputeSettle.s_stk s /\ DisputeSettle.s_payers s' = DisputeSettle.s_payers s /\
+  DisputeSettle.s_feetr s' = DisputeSettle.s_feetr s /\ DisputeSettle.s_slashtr s' = DisputeSettle.s_slashtr s /\
+  (exists r, 0 < r /\ DisputeSettle.s_liq s' = DisputeSettle.addz (DisputeSettle.s_liq s) who r /\
+             DisputeSettle.s_esc s' = DisputeSettle.s_esc s - r) /\
+  (forall b, DisputeSettle.getz (DisputeSettle.s_liq s) b <= DisputeSettle.getz (DisputeSettle.s_liq s') b) /\
+  (forall b, Z.to_nat b <> Z.to_nat who ->
+             DisputeSettle.getz (DisputeSettle.s_liq s') b = DisputeSettle.getz (DisputeSettle.s_liq s) b) /\
+  (forall i b, b <> who -> DisputeSettle.find_voter (DisputeSettle.s_rounds s') i b =
+                           DisputeSettle.find_voter (DisputeSettle.s_rounds s) i b) /\
+  (forall i, DisputeSettle.counts_of (DisputeSettle.s_rounds s') i = DisputeSettle.counts_of (DisputeSettle.s_rounds s) i).
+Proof. exact (FrameProofs.claim_frame fx s who id s'). Qed.
+Print Assumptions C19_claim_reward_frame.
+
+(* ProposeDispute / AddFeeToDispute in the settlement model (signer [who]; [ft] / [sl] = the fee tracker / the stake
+   snapshot of the reporter module after the message): accepted, they have the [payment_shape]; read per account
+   (C19_dispute_payment_per_account): only the payer's balance moves, and a staked holding moves only for an origin the
+   payment from stake added to the fee tracker (second exception) or, when the message completed the fee and the
+   dispute went to voting, for a backer in the snapshot of the disputed reporter (first exception) *)
+Theorem C19_dispute_payment_shape fx SS reporter s who id fee bond ft sl s' :
+  (DisputeSettle.propose fx SS s who fee bond ft sl = (s', DisputeSettle.OK) -> FrameProofs.payment_shape s s' who bond ft sl) /\
+  (DisputeSettle.add_fee fx reporter s who id fee bond ft sl = (s', DisputeSettle.OK) -> FrameProofs.payment_shape s s' who bond ft sl).
+Proof.
+  exact (conj (FrameProofs.propose_payment_shape fx SS s who fee bond ft sl s')
+              (FrameProofs.add_fee_payment_shape fx reporter s who id fee bond ft sl s')).
+Qed.
+Print Assumptions C19_dispute_payment_shape.
+
+Theorem C19_dispute_payment_per_account (s s' : DisputeSettle.st) (who : Z) (bond : bool) (ft sl : option DisputeSettle.tracker) :
+  (exists slashed,
+     (slashed = [] \/ (DisputeSettle.s_feetotal s' = DisputeSettle.s_slash s' /\ DisputeSettle.s_status s' = DisputeSettle.Voting /\
+                       exists t, sl = Some (slashed, t))) /\
+     DisputeSettle.s_stk s' =
+       DisputeSettle.add_all (DisputeSettle.add_all (DisputeSettle.s_stk s)
+                                (DisputeSettle.neg_all (if bond then DisputeSettle.new_origins (DisputeSettle.s_feetr s) ft else [])))
+                             (DisputeSettle.neg_all slashed) /\
+     (if bond then DisputeSettle.s_liq s' = DisputeSettle.s_liq s
+      else exists amt, DisputeSettle.s_liq s' = DisputeSettle.addz (DisputeSettle.s_liq s) who (- amt)) /\
+     DisputeSettle.s_rounds s' = DisputeSettle.s_rounds s) ->
+  (forall b, Z.to_nat b <> Z.to_nat who ->
+             DisputeSettle.getz (DisputeSettle.s_liq s') b = DisputeSettle.getz (DisputeSettle.s_liq s) b) /\
+  (bond = true -> DisputeSettle.s_liq s' = DisputeSettle.s_liq s) /\
+  (forall b, DisputeSettle.getz (DisputeSettle.s_stk s') b <> DisputeSettle.getz (DisputeSettle.s_stk s) b ->
+     (bond = true /\ FrameProofs.acct_in b (DisputeSettle.new_origins (DisputeSettle.s_feetr s) ft)) \/
+     (DisputeSettle.s_feetotal s' = DisputeSettle.s_slash s' /\ DisputeSettle.s_status s' = DisputeSettle.Voting /\
+      FrameProofs.acct_in b (FrameProofs.tracker_origins sl))).
+Proof. exact (FrameProofs.payment_frame s s' who bond ft sl). Qed.
+Print Assumptions C19_dispute_payment_per_account.
+
+(* ---- (d) tips, reports, end blocker, reward credits ------------------------------------------------------------ *)
+(* Model/OracleRound.v has no balances, stakes or credits; per account it has the reports: a tip and the end blocker
+   keep all of them, SubmitValue writes a report of its signer only *)
+Theorem C19_oracle_reports_frame s h q amt ts kind_of reporter stake min_stake ok s' :
+  (OracleRound.tip s h q amt = Some s' -> OracleRound.o_reports s' = OracleRound.o_reports s) /\
+  (OracleRound.end_block s h ts kind_of = Some s' -> OracleRound.o_reports s' = OracleRound.o_reports s) /\
+  (OracleRound.submit_value s h q reporter stake min_stake ok = inl s' ->
+   forall b, b <> reporter -> FrameProofs.reports_by (OracleRound.o_reports s') b = FrameProofs.reports_by (OracleRound.o_reports s) b).
+Proof.
+  exact (conj (FrameProofs.oracle_tip_keeps_reports s h q amt s')
+        (conj (FrameProofs.oracle_end_block_keeps_reports s h ts kind_of s')
+              (fun H b => FrameProofs.oracle_submit_writes_own_report s h q reporter stake min_stake ok s' b H))).
+Qed.
+Print Assumptions C19_oracle_reports_frame.
+
+(* Model/Escrow.v lumps everything held outside the module accounts into [e_users] (users are not told apart): a tip
+   takes exactly the tipped amount from there and touches no credit, no other operation lowers [e_users] *)
+Theorem C19_tip_from_users_side_only s q a o s' :
+  (Escrow.estep s (Escrow.ETip q a) = Some s' ->
+   0 < a <= Escrow.e_users s /\ Escrow.e_users s' = Escrow.e_users s - a /\
+   Escrow.e_credits s' = Escrow.e_credits s /\ Escrow.e_bonded s' = Escrow.e_bonded s /\ Escrow.e_tips s' = Escrow.e_tips s) /\
+  (Escrow.estep s o = Some s' -> (forall q a, o <> Escrow.ETip q a) -> Escrow.e_users s' = Escrow.e_users s).
+Proof. exact (conj (FrameProofs.escrow_tip_frame s q a s') (FrameProofs.escrow_users_only_by_tip s o s')). Qed.
+Print Assumptions C19_tip_from_users_side_only.
+
+(* no selector's reward credit goes down, whatever the operation, except by its own WithdrawTip *)
+Theorem C19_credits_never_reduced_by_others s o s' b :
+  Escrow.estep s o = Some s' -> o <> Escrow.EWithdrawTip b ->
+  Escrow.owed_get b (Escrow.e_credits s) <= Escrow.owed_get b (Escrow.e_credits s').
+Proof. exact (FrameProofs.escrow_credits_frame s o s' b). Qed.
+Print Assumptions C19_credits_never_reduced_by_others.
+
+(* WithdrawTip of selector [sel]: the whole units of its own credit go to the bonded pool, the fraction stays *)
+Theorem C19_withdraw_tip_own_credit s sel s' :
+  Escrow.estep s (Escrow.EWithdrawTip sel) = Some s' ->
+  let c := Escrow.owed_get sel (Escrow.e_credits s) in
+  0 < c / P /\
+  Escrow.owed_get sel (Escrow.e_credits s') = c - (c / P) * P /\ 0 <= Escrow.owed_get sel (Escrow.e_credits s') < P /\
+  Escrow.e_bonded s' = Escrow.e_bonded s + c / P /\ Escrow.e_tips s' = Escrow.e_tips s - c / P /\
+  Escrow.e_users s' = Escrow.e_users s /\
+  forall b, b <> sel -> Escrow.owed_get b (Escrow.e_credits s') = Escrow.owed_get b (Escrow.e_credits s).
+Proof. exact (FrameProofs.escrow_withdraw_tip_frame s sel s'). Qed.
+Print Assumptions C19_withdraw_tip_own_credit.
+
+(* ---- the hypotheses of the theorems above are satisfiable: concrete accepted messages ---------------------------- *)
+Theorem C19_frame_examples :
+  (* reporter: 7 selects reporter 4 (9's selection stays); later a third party removes 7 but not 9 *)
+  (let st1 := fst (Reporter.step false FrameProofs.ex_rep_state (Reporter.OSelect 7 4)) in
+   Reporter.rs_code (snd (Reporter.step false FrameProofs.ex_rep_state (Reporter.OSelect 7 4))) = Reporter.OK /\
+   Reporter.sel_get (Reporter.st_sel st1) 7 = Some (Reporter.mkSel 7 4 1 0) /\
+   Reporter.sel_get (Reporter.st_sel st1) 9 = Some (Reporter.mkSel 9 4 1 0) /\
+   let st2 := fst (Reporter.step false (fst (Reporter.step false st1 (Reporter.OParams (Reporter.mkPar 1000000 0 1000000))))
+                                 (Reporter.OEnv (FrameProofs.ex_view 1000000))) in
+   FrameProofs.validators_known (Reporter.st_view st2) 7 /\
+   Reporter.rs_code (snd (Reporter.step false st2 (Reporter.ORemove 7))) = Reporter.OK /\
+   Reporter.rs_code (snd (Reporter.step false st2 (Reporter.ORemove 9))) = Reporter.E_HAS_MIN) /\
+  (* slashing model: a partial fee, its completion from another payer's bonded amount, a full fee from bond *)
+  ((exists w', Slash.propose Slash.current SlashProofs.wit18_env FrameProofs.ex_world 7 SlashProofs.wit18_real 2 200000 false = Some w' /\
+      Slash.bond_get 7 (Slash.w_liq w') = 100000000 - 200000 /\ Slash.bond_get 8 (Slash.w_liq w') = 6000000 /\
+      Slash.holdings (Slash.w_stk w') 3 = Slash.holdings (Slash.w_stk FrameProofs.ex_world) 3 /\ Slash.w_rcds w' = [] /\
+      exists w'', Slash.add_fee Slash.current SlashProofs.wit18_env w' 8 1 300000 true = Some w'' /\
+         Slash.bond_get 8 (Slash.w_bond w'') = 5000000 - 300000 /\ Slash.bond_get 7 (Slash.w_bond w'') = 100000000 /\
+         Slash.w_liq w'' = Slash.w_liq w' /\
+         Slash.holdings (Slash.w_stk w'') 3 = Slash.holdings (Slash.w_stk FrameProofs.ex_world) 3 - 500000 /\
+         map Slash.rs_jailed (Slash.w_reps w'') = [true]) /\
+   (exists w', Slash.propose Slash.current SlashProofs.wit18_env FrameProofs.ex_world 7 SlashProofs.wit18_real 2 500000 true = Some w' /\
+      Slash.bond_get 7 (Slash.w_bond w') = 100000000 - 500000 /\ Slash.w_liq w' = Slash.w_liq FrameProofs.ex_world /\
+      Slash.bond_get 8 (Slash.w_bond w') = 5000000 /\
+      Slash.holdings (Slash.w_stk w') 3 = Slash.holdings (Slash.w_stk FrameProofs.ex_world) 3 - 500000 /\
+      map Slash.rc_id (Slash.w_rcds w') = [1])) /\
+  (* settlement model: two payments from stake, refund of payer 1, reward of voter 1 *)
+  ((let '(s1, r1) := DisputeSettle.propose true 150000 DisputeSettleProofs.st0 1 75000 true DisputeSettleProofs.feetr1 None in
+    r1 = DisputeSettle.OK /\ DisputeSettle.s_stk s1 = [10000000; 4925000; 5000000] /\
+    DisputeSettle.s_liq s1 = DisputeSettle.s_liq DisputeSettleProofs.st0 /\
+    let '(s2, r2) := DisputeSettle.add_fee true 0 s1 2 1 75000 true DisputeSettleProofs.feetr2 DisputeSettleProofs.snap in
+    r2 = DisputeSettle.OK /\ DisputeSettle.s_stk s2 = [9850000; 4925000; 4925000] /\
+    DisputeSettle.s_feetotal s2 = DisputeSettle.s_slash s2) /\
+   FrameProofs.tracker_nonneg (DisputeSettle.s_feetr FrameProofs.ex_settled) /\
+   (exists s', DisputeSettle.withdraw FrameProofs.ex_settled 1 1 = (s', DisputeSettle.OK) /\
+      DisputeSettle.s_liq s' = DisputeSettle.s_liq FrameProofs.ex_settled /\
+      DisputeSettle.s_stk FrameProofs.ex_settled = [10000000; 4925000; 4925000] /\
+      DisputeSettle.s_stk s' = [10000000; 4960625; 4960625] /\
+      DisputeSettle.find_payer (DisputeSettle.s_payers s') 1 1 = None /\
+      DisputeSettle.find_payer (DisputeSettle.s_payers s') 1 2 = Some (DisputeSettle.PY 1 2 75000 true)) /\
+   (exists s', DisputeSettle.claim true FrameProofs.ex_settled 1 1 = (s', DisputeSettle.OK) /\
+      DisputeSettle.s_liq s' = [0; 1003750; 1000000] /\ DisputeSettle.s_liq FrameProofs.ex_settled = [0; 1000000; 1000000])) /\
+  (* tips and credits: a tip, its payout to selectors 5 and 6, selector 5 withdraws one whole unit *)
+  (exists s1 s2 s3,
+    Escrow.estep (Escrow.einit 1000) (Escrow.ETip 1 100) = Some s1 /\ Escrow.e_users s1 = 900 /\
+    Escrow.estep s1 (Escrow.EPayTip 1 [(5, 3 * P / 2); (6, 98 * P - 3 * P / 2)]) = Some s2 /\
+    Escrow.owed_get 5 (Escrow.e_credits s2) = 3 * P / 2 /\
+    Escrow.estep s2 (Escrow.EWithdrawTip 5) = Some s3 /\
+    Escrow.owed_get 5 (Escrow.e_credits s3) = P / 2 /\
+    Escrow.owed_get 6 (Escrow.e_credits s3) = Escrow.owed_get 6 (Escrow.e_credits s2) /\
+    Escrow.e_bonded s3 = 1).
+Proof.
+  exact (conj FrameProofs.reporter_frame_example (conj FrameProofs.dispute_frame_example
+        (conj FrameProofs.settlement_frame_example FrameProofs.escrow_frame_example))).
+Qed.
+Print Assumptions C19_frame_examples.
